@@ -1,7 +1,7 @@
 SPECIFICATION Spec
 CONSTANTS
   Nodes = {"n1", "n2", "n3"}
-  RoleCfgs <- MCRoleCfgs
+  RoleCfgs <- GenRoleCfgs
   Roles <- MCRoles
   ReqTypes = {"friend", "parent", "uncle", "none", "children", "bad"}
   RespTypes = {"friend", "children", "nephew", "other", "none", "parent"}
@@ -10,11 +10,11 @@ CONSTANTS
   LimChildren = 1
   LimNephew = 1
   LimOther = 1
-  MaxOps = 3
+  MaxOps = 10
   MaxInject = 1
   MaxRoleChanges = 1
   OnlyDiscover = FALSE
   Dials <- MCDials
-  RecordHist = FALSE
-INVARIANT TypeOK LimitsHold Agreement
-PROPERTIES RootsNotInTree
+  RecordHist = TRUE
+  Depth = 10
+INVARIANT Emit
